@@ -1,12 +1,15 @@
 #!/usr/bin/env python3
 """tools/seed_sweep.py [ids...] — regression sweep over the recorded seeded changes: apply each patch to /repo,
 run the checks that caught it when it was recorded (or the property's own quick check), revert.  Prints one line
-per seed; exit 1 if a seed that used to be caught is no longer caught by any of its checks.  /repo must be clean."""
+per seed; exit 1 if a seed that used to be caught is no longer caught by any of its checks.  /repo must be clean.
+--record: write caught_by into the meta.json of a seed that was recorded as missed and is caught now."""
 import json, os, subprocess, sys, glob
 V = os.path.dirname(os.path.dirname(os.path.abspath(__file__)))
 def sh(c): return subprocess.run(c, shell=True, stdout=subprocess.PIPE, stderr=subprocess.STDOUT, text=True)
 assert sh("git -C /repo status --porcelain").stdout.strip() == "", "/repo not clean"
-ids = sys.argv[1:] or sorted(os.path.basename(d) for d in glob.glob(V + "/seeded/*") if os.path.isdir(d))
+RECORD = "--record" in sys.argv
+args = [a for a in sys.argv[1:] if a != "--record"]
+ids = args or sorted(os.path.basename(d) for d in glob.glob(V + "/seeded/*") if os.path.isdir(d))
 bad = 0
 for sid in ids:
     d = os.path.join(V, "seeded", sid)
@@ -24,6 +27,9 @@ for sid in ids:
                 break
     finally:
         sh("git -C /repo checkout -- .")
+    if RECORD and caught and not meta.get("caught_by"):   # a seed first missed, caught after the machinery was strengthened
+        meta["caught_by"] = [c.split(" (")[0] for c in caught]; meta["caught_after_strengthening"] = caught
+        json.dump(meta, open(d + "/meta.json", "w"), indent=1)
     print(f"{sid}: {'caught by ' + ', '.join(caught) if caught else 'NOT CAUGHT by ' + ', '.join(checks)}", flush=True)
     if not caught: bad += 1
 sys.exit(1 if bad else 0)
